@@ -1228,8 +1228,8 @@ async def subscribe_handler(service: UpnpServerService, request: Request) -> Res
         # AFTER response completion
         await resp.prepare(request)
         await resp.write_eof()
-        await service.async_send_events(subscriber)
         service.add_subscriber(subscriber)
+        await service.async_send_events(subscriber)
     return resp
 
 
